@@ -252,6 +252,22 @@ fn main() {
                                 Some(_) => "v?".into(),
                                 None => "none".into(),
                             }),
+                            // the same removal / insertion through the Entry API and remove_entry, and retain
+                            "erem" => rets.push(match t.entry(q[1].to_string()) {
+                                toml::map::Entry::Occupied(o) => match o.remove() {
+                                    toml::Value::Integer(o) => format!("v{o}"),
+                                    _ => "v?".into(),
+                                },
+                                toml::map::Entry::Vacant(_) => "none".into(),
+                            }),
+                            "eins" => rets.push(match t.entry(q[1].to_string()).or_insert(toml::Value::Integer(q[2].parse().unwrap())) {
+                                toml::Value::Integer(o) => format!("v{o}"),
+                                _ => "v?".into(),
+                            }),
+                            "ret" => {
+                                t.retain(|_, v| v.as_integer().unwrap_or(1) % 2 == 0);
+                                rets.push("-".into());
+                            }
                             _ => rets.push("bad".into()),
                         }
                     }
